@@ -66,6 +66,21 @@ class Names:
             self.val_names[self.vals[v]] = v.name_hint or f"v{self.vals[v]}"
         return self.vals[v]
 
+    def preseed(self, mod) -> "Names":
+        """Allocate accelerator and field ids in SORTED name order (so that Python's `sorted(names)`
+        is the numeric order of the ids), before anything else is converted."""
+        from snaxc.dialects import accfg
+        accs, fields = set(), set()
+        for op in mod.walk():
+            if isinstance(op, accfg.SetupOp | accfg.LaunchOp):
+                accs.add(op.accelerator.data)
+                fields.update(p.data for p in op.param_names.data)
+        for a in sorted(accs):
+            self.acc(a)
+        for f in sorted(fields):
+            self.field(f)
+        return self
+
     def tables(self) -> dict:
         return {"accs": dict(self.accs), "fields": dict(self.fields), "tags": dict(self.tags)}
 
